@@ -742,8 +742,19 @@ func (c *ClientConn) sendRequest(ctx context.Context, req message.Request) (mess
 	c.mu.Lock()
 	c.replyCh[req.GetRequestID()] = reply
 	c.mu.Unlock()
-	if err := c.transport.Write(req); err != nil {
-		return nil, err
+	// the write is bounded by the contexts as well: a peer that stopped reading blocks it indefinitely
+	// (closing the transport, which the keep-alive does on a ping timeout, releases it)
+	written := make(chan error, 1)
+	go func() { written <- c.transport.Write(req) }()
+	select {
+	case <-ctx.Done():
+		return nil, ctx.Err()
+	case <-c.ctx.Done():
+		return nil, errors.ErrConnectionClosed
+	case err := <-written:
+		if err != nil {
+			return nil, err
+		}
 	}
 	select {
 	case <-ctx.Done():
